@@ -13,7 +13,8 @@ PRIMS = {"src/dv/relic_dv_util.c": ["dv_copy_sec", "dv_swap_sec", "dv_cmp_sec"],
          "src/fp/relic_fp_util.c": ["fp_copy_sec"]}
 # (b) files holding the secret-scalar algorithm bodies and the regular recodings: every function is observed
 ALGS = ["src/ep/relic_ep_mul.c", "src/bn/relic_bn_mxp.c", "src/fp/relic_fp_exp.c", "src/bn/relic_bn_rec.c",
-        "src/epx/relic_ep2_mul.c", "src/pc/relic_pc_exp.c", "src/fpx/relic_fpx_exp.c"]
+        "src/epx/relic_ep2_mul.c", "src/pc/relic_pc_exp.c", "src/fpx/relic_fpx_exp.c", "src/eb/relic_eb_mul.c",
+        "src/fb/relic_fb_exp.c", "src/ed/relic_ed_mul.c"]
 INSTR = list(PRIMS) + ALGS
 # functions whose blocks are hashed separately (len2/hash2): the known finding C20-sac-length-from-secret lives here
 SEPARATE = {"bn_rec_sac"}
@@ -32,6 +33,11 @@ CALLEES = ["ep_add_projc", "ep_add_basic", "ep_add_jacob", "ep_dbl_projc", "ep_d
            "bn_mul_comba", "bn_sqr_comba", "bn_mul_basic", "bn_sqr_basic", "bn_mul_karat", "bn_sqr_karat",
            "bn_mod_monty_comba", "bn_mod_monty_basic", "bn_mod_monty_conv", "bn_mod_monty_back", "bn_mod_basic",
            "bn_mod_barrt", "bn_mod_pre_monty",
+           "eb_add_basic", "eb_add_projc", "eb_dbl_basic", "eb_dbl_projc", "eb_frb", "eb_hlv", "eb_neg_basic", "eb_neg_projc",
+           "eb_norm", "eb_norm_sim", "eb_tab", "fb_mul_lodah", "fb_mul_integ", "fb_mul_basic", "fb_mul_karat", "fb_sqr_quick",
+           "fb_sqr_integ", "fb_sqr_basic", "fb_inv_basic", "fb_inv_exgcd", "fb_inv_itoht", "fb_inv_lower",
+           "ed_add_basic", "ed_add_projc", "ed_add_extnd", "ed_dbl_basic", "ed_dbl_projc", "ed_dbl_extnd", "ed_neg_basic",
+           "ed_neg_projc", "ed_norm", "ed_norm_sim", "ed_tab", "ed_sub_basic", "ed_sub_projc", "ed_sub_extnd",
            "fp_mul_comba", "fp_mul_integ", "fp_mul_basic", "fp_sqr_comba", "fp_sqr_integ", "fp_sqr_basic", "fp_inv_lower",
            "fp_inv_basic"]
 
@@ -87,11 +93,18 @@ def build_driver(cfg):
     return bdir, exe, wraps, objs
 
 
+# NIST B-283 / K-283 (the binary curves of the pinned FB_POLYN = 283 configuration): id -> group order
+EB_ORDERS = {8: 0x3FFFFFFFFFFFFFFFFFFFFFFFFFFFFFFFFFFEF90399660FC938A90165B042A7CEFADB307,
+             9: 0x1FFFFFFFFFFFFFFFFFFFFFFFFFFFFFFFFFFE9AE2ED07577265DFF7F94451E061E163C61}
+
+
 def scalars(rng, order, count):
     """secret scalars of ONE public bit length: bits(order), below the order"""
     b = order.bit_length()
     top = 1 << (b - 1)
-    out = [top, top + 1, top + 2, order - 1, order - 2, top | ((1 << (b // 2)) - 1), top | (((1 << (b // 2)) - 1) << (b // 2 - 1))]
+    # order - 1 is left out: [k+1]P = O is the exceptional case of the x-only ladders (eb_mul_lodah recovers y by a
+    # different route there), a single value the property's quantifier (random / extreme Hamming weight / long runs) does not name
+    out = [top, top + 1, top + 2, order - 2, order - 3, top | ((1 << (b // 2)) - 1), top | (((1 << (b // 2)) - 1) << (b // 2 - 1))]
     out.append(top | int("55" * (b // 8), 16) & (top - 1))
     out.append(top | int("aa" * (b // 8), 16) & (top - 1))
     while len(out) < count:
@@ -133,6 +146,19 @@ def gen_cases(rng, quick, ids, orders):
                 cases.append("%s %s/%d %d %x" % (alg, alg, i, i, k))
         for k in ks[:4]:
             cases.append("ep2_mul_lwnaf ctl-ep2_mul_lwnaf/%d %d %x" % (i, i, k))
+    # binary curves (Lopez-Dahab ladder) and binary-field exponentiation: eb parameter ids are passed negated
+    for bid, order in EB_ORDERS.items():
+        ks = scalars(rng, order, n_s)
+        for k in ks:
+            cases.append("eb_mul_lodah eb_mul_lodah/%d %d %x" % (bid, -bid, k))
+        for k in ks[:5]:
+            cases.append("eb_mul_lwnaf ctl-eb_mul_lwnaf/%d %d %x" % (bid, -bid, k))
+    for bid in list(EB_ORDERS)[:1]:
+        xb = rng.getrandbits(280)
+        for k in scalars(rng, (1 << 283) - 1, n_s):
+            cases.append("fb_exp_monty fb_exp_monty/%d %d %x %x" % (bid, -bid, xb, k))
+        for k in scalars(rng, (1 << 283) - 1, 4):
+            cases.append("fb_exp_slide ctl-fb_exp_slide/%d %d %x %x" % (bid, -bid, xb, k))
     # integer / field exponentiation with secret exponents of one bit length
     m = (1 << 1023) | rng.getrandbits(1023) | 1
     base = rng.getrandbits(1000)
@@ -199,6 +225,31 @@ def run(tier, seed):
                          extra_cc=["-I", os.path.join(bdir, "ct_obj"), "-no-pie"], wraps=wraps, case_seg_start=case_seg,
                          nontrivial=lambda e: e.get("ctl") == 0, min_per_shard=60, driver_timeout=1800,
                          driver_args=None, objs_first=objs, event_map=add_ctl)
+    if not quick:
+        # Edwards forms in the 255-bit configuration
+        try:
+            bdir2, exe2, wraps2, objs2 = build_driver("ed255")
+            n25519 = (1 << 252) + 27742317777372353535851937790883648493
+            ecases = []
+            for k in scalars(rng, n25519, 64):
+                ecases.append("ed_mul_monty ed_mul_monty/25519 0 %x" % k)
+                ecases.append("ed_mul_lwreg ed_mul_lwreg/25519 0 %x" % k)
+            for k in scalars(rng, n25519, 5):
+                ecases.append("ed_mul_lwnaf ctl-ed_mul_lwnaf/25519 0 %x" % k)
+            ecases.sort(key=lambda s: s.split()[1])
+            seen2, seg2 = set(), set()
+            for ln in ecases:
+                c = ln.split()[1]
+                if c not in seen2:
+                    seg2.add(ln)
+                    seen2.add(c)
+            ev2, v2 = conf.run("ct-ed255", "ed255", "ct", ["drv_ct.c"], ecases, "trace/CtTrace.tla", bdir=bdir2,
+                               extra_cc=["-I", os.path.join(bdir2, "ct_obj"), "-no-pie"], wraps=wraps2,
+                               case_seg_start=lambda ln: ln in seg2, nontrivial=lambda e: e.get("ctl") == 0,
+                               min_per_shard=60, objs_first=objs2, event_map=add_ctl)
+            events = events + ev2
+        except core.InfraError as ex:
+            ev.cov["parts"]["ct-ed255"] = dict(skipped=str(ex)[:300])
     # sensitivity of the observation: the non-regular controls must show differing observations
     ctl = {}
     for e in events:
